@@ -2,7 +2,10 @@ package main
 
 // Intrinsics added for C14 (nsqlookupd registry).
 
-import "fmt"
+import (
+	"fmt"
+	"go/token"
+)
 
 func init() {
 	// (*strings.Builder).copyCheck only detects a Builder that was copied by value after first
@@ -58,6 +61,64 @@ func init() {
 	now := func(in *Interp, now value, args []value) value { return now }
 	since := func(in *Interp, now value, args []value) value { return in.tt.Sub(timeNS(now), timeNS(args[0])) }
 	until := func(in *Interp, now value, args []value) value { return in.tt.Sub(timeNS(args[0]), timeNS(now)) }
+	// sync.Map contract model (the real one is built on atomic.Pointer / unsafe): an association
+	// list per map address, keys compared with Go interface equality (concrete values only).
+	// Used by nsqlookupd's tcpServer.conns (Store / Delete / Range). No preemption point is
+	// modelled inside these calls: the map is internally synchronised and each call is atomic.
+	type smEntry struct{ k, v value }
+	smKey := func(args []value) string { return fmt.Sprintf("c14.syncmap:%p", args[0].(*value)) }
+	smGet := func(in *Interp, args []value) []smEntry {
+		l, _ := in.ghost[smKey(args)].([]smEntry)
+		return l
+	}
+	smFind := func(in *Interp, l []smEntry, k value) int {
+		for i, e := range l {
+			eq := in.eqVal(nil, e.k, k)
+			if !eq.IsConst() {
+				in.unsupported("sync.Map key comparison on symbolic values")
+			}
+			if eq.val != 0 {
+				return i
+			}
+		}
+		return -1
+	}
+	intrinsics["(*sync.Map).Store"] = func(in *Interp, fr *frame, args []value) value {
+		l := smGet(in, args)
+		if i := smFind(in, l, args[1]); i >= 0 {
+			l[i].v = args[2]
+		} else {
+			l = append(l, smEntry{args[1], args[2]})
+		}
+		in.ghost[smKey(args)] = l
+		return nil
+	}
+	intrinsics["(*sync.Map).Load"] = func(in *Interp, fr *frame, args []value) value {
+		l := smGet(in, args)
+		if i := smFind(in, l, args[1]); i >= 0 {
+			return tuple{l[i].v, in.tt.True}
+		}
+		return tuple{iface{}, in.tt.False}
+	}
+	intrinsics["(*sync.Map).Delete"] = func(in *Interp, fr *frame, args []value) value {
+		l := smGet(in, args)
+		if i := smFind(in, l, args[1]); i >= 0 {
+			n := append([]smEntry{}, l[:i]...)
+			n = append(n, l[i+1:]...)
+			in.ghost[smKey(args)] = n
+		}
+		return nil
+	}
+	intrinsics["(*sync.Map).Range"] = func(in *Interp, fr *frame, args []value) value {
+		for _, e := range append([]smEntry{}, smGet(in, args)...) {
+			r := in.call(fr, token.NoPos, args[1], []value{e.k, e.v})
+			if t, ok := r.(*Term); ok && t.IsConst() && t.val == 0 {
+				break
+			}
+		}
+		return nil
+	}
+
 	wrap("time.Now", now)
 	wrap(rtPkg+"Now", now)
 	wrap("time.Since", since)
